@@ -20,6 +20,7 @@ type c06p struct {
 	poster, drawer bool
 	cycles         int
 	refused        bool // a Resume() on the running screen (refused) precedes the shutdown call
+	escPending     bool // the last input before the shutdown call is ESC ESC: an Alt prefix is pending and half a sequence buffered
 	transient      bool // the window has another size at the moment of Resume and is back afterwards
 }
 
@@ -128,6 +129,10 @@ func c06Scenarios() []scenario {
 		}
 		add(c06p{op: "suspend-fini", cycles: cyc, c: 12, e: 10})
 	}
+	// input that ends in the middle of an escape sequence when the screen is suspended: what was
+	// typed before the Suspend is gone with it, and must not change what is typed afterwards
+	add(c06p{op: "suspend", escPending: true, cycles: 1})
+	add(c06p{op: "suspend", escPending: true, cycles: 1, c: 2})
 	// a redundant Resume() on a running screen is refused; the shutdown that follows must still return
 	for _, op := range []string{"fini", "suspend"} {
 		add(c06p{op: op, refused: true})
@@ -184,6 +189,18 @@ func c06prog(ps string, res *result) func() {
 				if err := s.Resume(); err == nil {
 					res.fail("Resume() on a running screen returned nil")
 				}
+			}
+			if p.escPending {
+				// the user has typed ESC ESC and the parser has seen it; the Suspend comes
+				// before the escape timeout has run out
+				r.tty.inject([]byte("\x1b\x1b"))
+				seen := false // (latched: in some schedules the timeout runs out before this thread goes on)
+				verifrt.Block("esc-seen", func() bool {
+					if tcell.VerifEscapePending(s) {
+						seen = true
+					}
+					return seen
+				})
 			}
 			if p.op == "fini" {
 				s.Fini()
@@ -331,6 +348,9 @@ func afterResume(r *rig, res *result, cyc int) {
 		ev := s.PollEvent()
 		if ek, ok := ev.(*tcell.EventKey); ok && ek.Rune() == rune(key) {
 			got = true
+			if ek.Modifiers() != 0 {
+				res.fail("after Suspend/Resume cycle %d the key %q typed afterwards was delivered with modifiers %v: input from before the Suspend leaked into it", cyc, key, ek.Modifiers())
+			}
 		}
 		if ev == nil {
 			break
